@@ -429,7 +429,7 @@ func init() {
 		Title:     "Rejected invocations run nothing and follow the configured error policy",
 		Technique: "runtime monitor on random command trees under the three error policies: event log, exit stub, recovered panic and error stream, judged by the routing model",
 		Rule: "trees of C04, half of them with typed (int) options and arguments; the three policies, set before any declaration; invocations: 60% with a mutated level (missing/extra/misordered/undeclared/malformed token, " +
-			"unknown word where a subcommand could be), typed trees deliver non-numeric values to int variables, the rest valid controls. A twin run in recording mode under ContinueOnError gives the error text and, for typed trees, " +
+			"unknown word where a subcommand could be), typed trees deliver non-numeric values to int variables, the rest valid controls; some commands set their own policy in their initializer and sometimes the application's policy is assigned after the declarations (commands declared before keep what they copied); a tenth of the cases reject two invocations in a row on the same application object. A twin run in recording mode under ContinueOnError gives the error text and, for typed trees, " +
 			"the bound values from which the first non-convertible one (the rejecting level) is computed. Oracle: rejected => no Before/Action/After event, error text and 'Usage: <path of the rejecting command>' on the error stream, " +
 			"then Continue: non-nil error returned / Exit: exit stub called once with 2 / Panic: panic with an error value; accepted => exact hook sequence, nil, no exit, no panic. " +
 			"non-trivial = every judged invocation; distinct by (tree, argv, policy).",
@@ -443,7 +443,69 @@ func init() {
 	})
 }
 
+// c07Twice: the same application object rejects two invocations in a row: the second rejection must be reported exactly
+// like the first (error, usage of the rejecting command, policy)
+func c07Twice(c *core.Ctx) {
+	pi := c.Index / argvPerProg
+	p := progFor(c.Seed, "C07twice", pi, gen.Cfg{MaxOpts: 4})
+	nfa, nfaR := BuildNFA(p, false), BuildNFA(p, true)
+	var bad [][]string
+	for try := 0; try < 12 && len(bad) < 2; try++ {
+		argv := gen.Mutate(c.R, gen.Argv(c.R, p, gen.Cfg{}))
+		if hasHelp(argv) || FoldedEq(p, argv) {
+			continue
+		}
+		if v, _ := decideBoth(p, nfa, nfaR, argv); !v.Unclaimed && !v.Accept {
+			bad = append(bad, argv)
+		}
+	}
+	if len(bad) < 2 {
+		c.Inc("twice_skipped")
+		return
+	}
+	policy := []flag.ErrorHandling{flag.ContinueOnError, flag.ExitOnError, flag.PanicOnError}[c.R.Intn(3)]
+	d := CaseDesc{Decl: DeclStr(p), Spec: p.Spec, Argv: bad[1], Note: fmt.Sprintf("second rejection by the same application object (first: %q), policy %s", bad[0], policyName(policy))}
+	c.Journal(d)
+	app := drive.Single(p)
+	app.Policy = policy
+	b := drive.Build(app)
+	b.Run(bad[0])
+	o := b.Run(bad[1])
+	c.LibDone()
+	c.Eval()
+	c.Nontrivial("twice", d.Decl, d.Spec, fmt.Sprintf("%q%q", bad[0], bad[1]), policyName(policy))
+	for _, ev := range o.Events {
+		if ev != "RET" && !strings.HasPrefix(ev, "EXIT") {
+			c.Violation(fmt.Sprintf("the second rejected invocation ran %s", ev), nil, nil)
+			return
+		}
+	}
+	if !usageOf(o.Stderr, "app") || !strings.Contains(o.Stderr, "Error: ") {
+		c.Violation("the second rejection by the same application object does not write the error and the usage to the error stream", map[string]interface{}{"stderr": truncateStr(o.Stderr, 300)}, nil)
+		return
+	}
+	ok := true
+	switch policy {
+	case flag.ContinueOnError:
+		ok = o.EventStr() == "RET" && o.Err != nil && o.Pan == nil
+	case flag.ExitOnError:
+		ok = o.EventStr() == "EXIT2" && o.Exits == 1
+	case flag.PanicOnError:
+		_, isErr := o.Pan.(error)
+		ok = o.EventStr() == "" && isErr
+	}
+	if !ok {
+		c.Violation(fmt.Sprintf("second rejection: policy %s not followed: events=%s err=%v panic=%v", policyName(policy), o.EventStr(), o.Err, o.Pan), nil, nil)
+		return
+	}
+	c.Inc("second_rejection_by_same_object_" + policyName(policy))
+}
+
 func runC07(c *core.Ctx) {
+	if c.Index%10 == 9 {
+		c07Twice(c)
+		return
+	}
 	typed := (c.Index/10)%2 == 1
 	root, version := treeFor(c, "C07", 10, typed)
 	mut := 60
